@@ -1110,6 +1110,30 @@ fn c19_cli(ctx: &mut Ctx, rng: &mut Rng, cli: &str, xdir: &str) {
 
 // ---------------------------------------------------------------- C20
 
+pub const KNOWN_C20_EMPTY_EXPANSION: &str = "C20:template-side-without-literal-text-over-an-empty-cell";
+
+/// Known finding: `BIGRAM B:%L[0]/%R[1]` over the left-id.def row `1 名詞,` - the right-hand expansion is the empty text,
+/// which the bigram files use for BOS/EOS.
+pub fn c20_witness_empty_expansion(ctx: &mut Ctx) {
+    let fd = "UNIGRAM U:%F[0]\nBIGRAM B:%L[0]/%R[1]\n";
+    let (rid, lid) = ("0 BOS/EOS,*\n1 動詞,x\n", "0 BOS/EOS,*\n1 名詞,\n");
+    let model = "2\tB:動詞/\n";
+    let (mut br, mut bl, mut bc) = (vec![], vec![], vec![]);
+    ctx.eval();
+    if guarded(|| vibrato::mecab::generate_bigram_info(fd.as_bytes(), rid.as_bytes(), lid.as_bytes(), model.as_bytes(), 10.0, &mut br, &mut bl, &mut bc).is_ok()) != Ok(true) {
+        return;
+    }
+    let conn = ConnTexts::Bigram { right: br.clone(), left: bl.clone(), cost: bc.clone(), dual: false };
+    if let BuildOutcome::Ok(d) = build_from_texts(b"a,0,0,0,A\n", b"DEFAULT 0 1 0\n", b"DEFAULT,0,0,0,U\n", &conn) {
+        let got = vibrato::verif::conn_cost(&d, 1, 1);
+        if got == -20 {
+            ctx.bucket("witness_empty_expansion_ok");
+        } else {
+            ctx.violation("converted_cost_differs_from_model", KNOWN_C20_EMPTY_EXPANSION, format!("raw: cost(right id 1, left id 1) = {got}; model.def has `2<TAB>B:動詞/` (left expansion `B:動詞`, right expansion empty: the second cell of `1 名詞,`) and cost factor 10, so the model prescribes -20"), json!({"feature.def": fd, "right-id.def": rid, "left-id.def": lid, "model.def": model, "bigram.right": String::from_utf8_lossy(&br), "bigram.left": String::from_utf8_lossy(&bl), "bigram.cost": String::from_utf8_lossy(&bc)}));
+        }
+    }
+}
+
 pub fn c20_case(ctx: &mut Ctx, rng: &mut Rng) {
     // 1-6 templates, now and then 9-12 (more than the 8 lanes of the raw connector, a pre-summed part in the dual)
     let k = if rng.chance(0.15) { 9 + rng.below(4) } else { 1 + rng.below(6) };
@@ -1310,6 +1334,11 @@ pub fn c20_case(ctx: &mut Ctx, rng: &mut Rng) {
         }
     }
     // compile (raw and dual) with a dummy lexicon and compare every pair of non-zero ids
+    let bare_over_empty = templates.iter().any(|(l, r)| crate::trainprops::bare_template_side(l) || crate::trainprops::bare_template_side(r))
+        && right_ids.iter().chain(left_ids.iter()).skip(0).any(|row| row.iter().any(|c| c.is_empty()));
+    if bare_over_empty {
+        ctx.bucket("template_side_without_literal_text_and_empty_cell");
+    }
     if big_weights {
         ctx.bucket("weights_beyond_16_bits_after_scaling");
     }
@@ -1346,6 +1375,11 @@ pub fn c20_case(ctx: &mut Ctx, rng: &mut Rng) {
                     }
                 }
                 let got = vibrato::verif::conn_cost(&d, r as u16, l as u16) as i64;
+                if got != want && bare_over_empty {
+                    // (listed known finding: the empty expansion coincides with the feature of BOS/EOS)
+                    ctx.violation("converted_cost_differs_from_model", KNOWN_C20_EMPTY_EXPANSION, format!("{}: cost(right id {r}, left id {l}) = {got}, the model prescribes {want}; a template side without literal text meets an empty id-table cell", if dual { "dual" } else { "raw" }), cj(String::new()));
+                    return;
+                }
                 if got != want {
                     ctx.violation("converted_cost_differs_from_model", "C20:converted_cost_differs_from_model", format!("{}: cost(right id {r}, left id {l}) = {got}, the model prescribes {want} ({applicable} templates apply to both)", if dual { "dual" } else { "raw" }), cj(format!("bigram.right:\n{}\nbigram.left:\n{}\nbigram.cost:\n{}", String::from_utf8_lossy(&br), String::from_utf8_lossy(&bl), String::from_utf8_lossy(&bc))));
                     return;
